@@ -483,13 +483,17 @@ def main():
             continue
         for L in (lt if tier() == "thorough" else lq):
             check_type(interp, ty, L, V, cov)
+    if not only or "ints" in only:
+        import c19_ints
+        c19_ints.run(V, cov, fns, natives(None), consts)
     c = V.counts()
     coverage = dict(
         states=cov["paths"], transitions=c.get("discharged", 0), traces_validated_against_impl=cov["native_validated"],
         samples=V.obligations[:5] + [o for o in V.obligations if o["status"] != "discharged"][:5],
         obligations=len(V.obligations), discharged=c.get("discharged", 0), queries=cov["queries"], accepted_paths=cov["accepted_paths"],
-        functions_encoded=["StackInputs/StackOutputs/Kernel/ProgramInfo ::read_from and ::write_into (MIR of miden-core)"],
-        modelled_natively=["winter-utils ByteReader/ByteWriter primitives (little-endian, EOF checks)", "Felt::read_from (rejects values >= p)", "RpoDigest = 4 field elements"],
+        functions_encoded=["StackInputs/StackOutputs/Kernel/ProgramInfo ::read_from and ::write_into (MIR of miden-core)",
+                           "StackInputs::try_from_values, StackOutputs::new + find_invalid_elements (MIR of miden-core), AdviceInputs::with_stack_values (MIR of miden-processor) on n symbolic u64 values: accepted <=> all canonical (+ overflow-address length rule), stored elements = given integers in the documented order"],
+        modelled_natively=["winter-utils ByteReader/ByteWriter primitives (little-endian, EOF checks)", "Felt::read_from (rejects values >= p)", "RpoDigest = 4 field elements", "Felt::try_from(u64) (Err for values >= p)"],
         bounds="buffers of the listed concrete lengths with arbitrary byte contents; element counts symbolic (bounded by the buffer)",
         not_covered="ExecutionProof / StarkProof (winterfell), AST / library decoders of miden-assembly (strings, maps, unbounded recursion), allocation of attacker-chosen capacities (Vec::with_capacity(count))",
         sources_fingerprint=repo_fingerprint(["core/src/stack", "core/src/program/info.rs", "core/src/program/mod.rs"]),
